@@ -158,6 +158,51 @@ fn run_case(case: &Case, ev: &Evidence) -> CaseResult {
                 }
             }
         }
+        // a member that ignores the freeze (hook: a copy of its group that forgot the pending re-initialisation) commits for
+        // the current epoch of the old group, with and without removing the receiver: every frozen member refuses, whatever
+        // the commit does to it
+        {
+            let rogue_of = members[pick(case.c(6), members.len())];
+            for remove_receiver in [false, true] {
+                for m in &members {
+                    if *m == rogue_of {
+                        continue;
+                    }
+                    let mut rogue = w.parties[rogue_of].g().clone();
+                    rogue.verif_forget_pending_reinit();
+                    let victim_leaf = w.parties[*m].leaf();
+                    let built = guard(|| {
+                        let mut b = rogue.commit_builder().commit_time(t);
+                        if remove_receiver {
+                            b = b.remove_member(victim_leaf)?;
+                        }
+                        b.build()
+                    });
+                    let bytes = match built {
+                        Ok(o) => o.commit_message.to_bytes().expect("enc"),
+                        Err(e) if e.is_panic() => return Err(panic_failure(P, "commit_builder.build(rogue)", &e)),
+                        Err(e) => {
+                            ev.class(&format!("rogue_commit_not_built:{}", e.class()));
+                            continue;
+                        }
+                    };
+                    let mut frozen = w.parties[*m].g().clone();
+                    match guard(|| frozen.process_incoming_message_with_time(MlsMessage::from_bytes(&bytes)?, t)) {
+                        Ok(r) => {
+                            return Err(fail(
+                                if remove_receiver { "commit_accepted_after_reinit|removes_the_receiver" } else { "commit_accepted_after_reinit|rogue_member" },
+                                format!("member {m}, frozen by the ReInit commit, accepts a commit of member {rogue_of} for the old group: {}", format!("{r:?}").chars().take(80).collect::<String>()),
+                            ))
+                        }
+                        Err(e) if e.is_panic() => return Err(panic_failure(P, "process_incoming_message(commit after reinit)", &e)),
+                        Err(e) => ev.class(&format!("rogue_commit_refused{}:{}", if remove_receiver { "(removes the receiver)" } else { "" }, e.class())),
+                    }
+                    if !remove_receiver {
+                        break;
+                    }
+                }
+            }
+        }
         // the freeze survives a write and a reload of the old group: still no commits, still a ReinitClient
         if case.c(3) % 2 == 0 {
             let m = others[0];
@@ -580,7 +625,7 @@ pub fn run(ctx: &Ctx) -> ! {
          cipher suite with new signing identities) followed by ReinitClient::commit / join, or Group::branch / join_subgroup; successor member set in {equal, strict subset, superset, one identity replaced}, \
          key packages in shuffled order. Oracle: after the ReInit commit every member refuses to commit and further commits are rejected; ReinitClient::commit succeeds iff the identity sets are equal \
          (whatever the old tree shape or order), branch iff subset; every included old member joins and all successor members agree (context, authenticator, tree), epoch 1, announced group id / suite; \
-         joining without the old group (plain join_group), from a copy that never saw the ReInit, or from the old group at another epoch fails; the freeze survives write + load; successors and sub-groups with a wrong member set, another group id or other group context extensions (made by the library's own creator minus its check, hooks) and cross-fed Welcomes are refused by every joiner. Non-trivial = old tree with a blank interior leaf or a changed \
+         joining without the old group (plain join_group), from a copy that never saw the ReInit, or from the old group at another epoch fails; the freeze survives write + load; successors and sub-groups with a wrong member set, another group id or other group context extensions (made by the library's own creator minus its check, hooks) and cross-fed Welcomes are refused by every joiner. A commit by a member that ignores the freeze (hook verif_forget_pending_reinit on a copy), with or without a Remove of the receiver, is refused by every frozen member. Non-trivial = old tree with a blank interior leaf or a changed \
          identity, or a member-set variant other than equal.",
     );
     let run = |c: &Case| run_case(c, &ev);
